@@ -240,7 +240,7 @@ PROPS = {
         level="model_checking",
         level_text="partial claim, bounded exploration through the symbolic executor: (a) every EBNF syntax tree of a bounded template (Negation symbolic, any modifier, name/literal/token/group, any lookahead marker, sequences and alternatives) is printed by the real String methods and parsed back by the real ebnf parser; the trees must be equal (so no operator is lost or altered); (b) for grammars using every operator, a union and anonymous struct types, the real Parser.String() must not panic, must be accepted by the ebnf package, put the root production first, define every referenced production exactly once, contain every operator of the grammar, and survive a second round trip",
         level_note="trusted: text/scanner executed from SSA on the (concrete) printed text; the template's shape selectors are finite (enumeration through the executor; the solver decides the symbolic Negation flag); whole-grammar half is a fixed catalogue of 3 grammars",
-        runs=[dict(pkg="ebnf", files=["ebnf/zz_verif_ebnf.go", "root/zz_verif_ggcore.go"], harness="^VH_C14_", reach={"VH_C14_TreeRoundTrip": ["round-trip"], "VH_C14_Literals": ["round-trip"], "VH_C14_Grammar_All": ["grammar"], "VH_C14_Grammar_Anonymous": ["grammar"], "VH_C14_Generated": ["grammar"]})],
+        runs=[dict(pkg="ebnf", files=["ebnf/zz_verif_ebnf.go", "root/zz_verif_ggcore.go"], harness="^VH_C14_", reach={"VH_C14_TreeRoundTrip": ["round-trip"], "VH_C14_Literals": ["round-trip"], "VH_C14_Grammar_All": ["grammar"], "VH_C14_Grammar_Anonymous": ["grammar"], "VH_C14_Generated": ["grammar"], "VH_C14_Grammar_WholeBody": ["grammar"], "VH_C14_Grammar_Negations": ["grammar"]})],
         bounds=dict(quick="trees: first term a leaf or a group (any lookahead marker) around a term, second element (sequence or alternative) a simple leaf; 12 090 trees; grammars: all-operators grammar (incl. literals that need escaping), union grammar, anonymous struct grammar, 48 generated grammars (union root, anonymous struct types, every operator, escaped literals); literal terms: 9 escape-needing texts in sequences and alternatives",
                     thorough="group nesting depth 2; 400 generated grammars"),
         outside="grammars outside the three catalogue grammars; literal texts needing escapes beyond quote and backslash; cmd/railroad",
@@ -260,7 +260,7 @@ import re as _re
 import subprocess as _sp
 
 C05_DEFS = ["Literal", "Overlap", "Classes", "Dot", "Multibyte", "Anchors", "Alternation", "Fold", "PushPop", "String",
-            "Return", "ReturnNested", "ReturnSelf", "IncludeFirst", "IncludeMiddle", "IncludeNested", "IncludeDiamond", "PopInRoot", "ReturnInRoot", "OptionalGroupPush",
+            "Return", "ReturnNested", "ReturnSelf", "IncludeFirst", "IncludeMiddle", "IncludeNested", "IncludeDiamond", "MultiLine", "Astral", "OddNames", "PopInRoot", "ReturnInRoot", "OptionalGroupPush",
             "ElidedActions", "NullableStar", "Possessive", "Repeat", "EmptyAlt", "NoWordBoundary", "EndAnchors", "FoldClass", "DotAll", "NonASCIILit", "NegClass"]
 
 C05_GENERATED = {"quick": 24, "thorough": 120}
@@ -315,6 +315,26 @@ def _gen_c05(spec, tier, seed, tmp, REPO, GOENV):
         open(out, "w").write(r.stdout)
         overlay[_os.path.join(REPO, GENPKG_DIR, "gen_%s.go" % d)] = out
         ok_defs.append(d)
+    # 2b. the emitted source must compile (C05): build all emitted files as one virtual package; a file named in
+    #     a compiler error is a violation for its definition and is left out of the symbolic run
+    for _round in range(4):
+        chk = {_os.path.join(REPO, GENPKG_DIR + "chk", _os.path.basename(v)): r for v, r in overlay.items()}
+        ovc = _os.path.join(work, "ov_compile.json")
+        _json.dump({"Replace": chk}, open(ovc, "w"))
+        r = _sp.run(["go", "build", "-overlay", ovc, "./" + GENPKG_DIR + "chk"], env=GOENV, cwd=REPO, text=True, capture_output=True)
+        if r.returncode == 0:
+            break
+        bad = sorted(set(_re.findall(r"gen_(\w+)\.go:\d+", r.stderr)))
+        if not bad:
+            return dict(problem="C05: emitted package does not build: " + r.stderr[-1500:])
+        for d in bad:
+            first = [l for l in r.stderr.splitlines() if "gen_%s.go:" % d in l][0]
+            violations.append(dict(harness="generator:" + d, outcome="assert",
+                                   msg="C05: the emitted Go source does not compile: " + first.strip()[:300],
+                                   where="go build of the emitted source", inputs=[], definition=open(_os.path.join(work, d + ".json")).read()))
+            overlay.pop(_os.path.join(REPO, GENPKG_DIR, "gen_%s.go" % d), None)
+            if d in ok_defs:
+                ok_defs.remove(d)
     # 3. qualified catalogue + entry points
     q = cat_src
     q = _re.sub(r"^package lexer\b", 'package zzverifgen\n\nimport "github.com/alecthomas/participle/v2/lexer"', q, flags=_re.M)
